@@ -1,4 +1,5 @@
 import PsyVerif.Model.Atomic
+import PsyVerif.Lemmas.AtomicTiling
 
 /-! C26 — a rejected transformation leaves the code unchanged.
 
@@ -102,7 +103,7 @@ theorem C26_atomic_tail_call (g : S → Prog S) (hg : ∀ s, Atomic (g s)) : Ato
   | mk s' o =>
     rw [h] at hr
     cases o with
-    | accepted => simp [run] at hr
+    | accepted => simp at hr
     | refused =>
       have := hg s s (by rw [h])
       rw [h] at this
@@ -166,7 +167,7 @@ theorem C26_OMPLoopTrans_pinned_partial (v : OmpState → Bool) : Atomic (ompLoo
   | mk s' o =>
     rw [h] at hr this
     cases o with
-    | accepted => simp [run] at hr
+    | accepted => simp at hr
     | refused => simpa using this
 
 example : ¬ Atomic (ompLoopPinned true (fun _ => false)) := by
@@ -213,13 +214,14 @@ theorem C26_ArrayReduction_pinned_counterexample : ¬ C26_ArrayReduction_pinned_
 theorem C26_ArrayReduction_pinned_partial (v a2l : RedState → Bool) :
     Atomic (reductionPinned false v a2l) := by
   intro s hr
-  simp only [reductionPinned, validateThen, run, redDeclareTmp] at hr ⊢
+  have hd : ∀ x, redDeclareTmp false x = x := fun _ => rfl
+  simp only [reductionPinned, validateThen, run, hd, a2lApply] at hr ⊢
   by_cases hv : v s = true
-  · simp only [hv, if_true, a2lApply, validateThen, run] at hr ⊢
-    by_cases ha : a2l (redRewrite s) = true
-    · simp [ha] at hr
-    · simp only [ha] at hr ⊢
-      simp [redRestore, redRewrite]
+  · by_cases ha : a2l (redRewrite s) = true
+    · simp [hv, ha] at hr
+    · have ha' : a2l (redRewrite s) = false := by simpa using ha
+      simp only [hv, ha', Bool.false_eq_true, ↓reduceIte]
+      cases s; simp [redRestore, redRewrite]
   · simp [hv]
 
 /-- Fixed code: atomic, for every nested validate that does not depend on the temporary's declaration. -/
@@ -227,13 +229,13 @@ theorem C26_ArrayReduction (increment : Bool) (v a2l : RedState → Bool)
     (ha : ∀ s, a2l (redDeclareTmp increment s) = a2l s) :
     Atomic (reductionFixed increment v a2l) := by
   intro s hr
-  simp only [reductionFixed, validateThen, run] at hr ⊢
+  simp only [reductionFixed, validateThen, run, a2lApply] at hr ⊢
   by_cases hv : v s = true
-  · simp only [hv, if_true, a2lApply, validateThen, run] at hr ⊢
-    by_cases h1 : a2l (redRewrite s) = true
-    · simp [h1, ha] at hr
-    · simp only [h1] at hr ⊢
-      simp [redRestore, redRewrite]
+  · by_cases h1 : a2l (redRewrite s) = true
+    · simp [hv, h1, ha] at hr
+    · have h1' : a2l (redRewrite s) = false := by simpa using h1
+      simp only [hv, h1', Bool.false_eq_true, ↓reduceIte]
+      cases s; simp [redRestore, redRewrite]
   · simp [hv]
 
 example : run (reductionFixed true (fun _ => true) (fun _ => false)) ⟨0, false, false⟩
@@ -263,7 +265,7 @@ theorem C26_ArrayAssignment2Loops_partial (c1 c2 : A2LState → Bool) : Atomic (
   by_cases h1 : c1 s = true
   · simp only [h1, if_true] at hr ⊢
     by_cases h2 : c2 s = true
-    · simp [h2, run] at hr
+    · simp [h2] at hr
     · simp [h2]
   · simp [h1]
 
@@ -273,3 +275,66 @@ example : run (a2lVerbose true (fun _ => true) (fun _ => false)) ⟨false, false
   decide
 
 end C26
+
+/-! ### LoopTiling2DTrans = ChunkLoopTrans ∘ ChunkLoopTrans ∘ LoopSwapTrans -/
+namespace C26.Tiling
+
+/-- `ChunkLoopTrans.apply` on the root loop: validate, then mutate. -/
+theorem C26_ChunkLoopTrans (cs : Int) : Atomic (chunkProg cs id (fun f => f)) :=
+  C26_atomic_validate_first _ _ (by simp [NoRefuse])
+
+/-- `LoopSwapTrans.apply` (target found by `walk(Loop)[1]`): validate, then mutate. -/
+theorem C26_LoopSwapTrans : Atomic swapProgWalk1 :=
+  C26_atomic_validate_first _ _ (by simp [NoRefuse])
+
+/-- Every nested `validate` run by `LoopTiling2DTrans.apply` (chunk outer, chunk inner on the tree after the
+    first chunk, swap on the tree after both) is implied by `LoopTiling2DTrans.validate`. -/
+theorem C26_LoopTiling2D_nested_validates_implied (o : Opts) (s : St) (hw : WF s.tab)
+    (hv : tilingValidate o s = true) : (run (tilingProg o) s).2 = .accepted :=
+  tiling_accepts o s hw hv
+
+/-- **`LoopTiling2DTrans`: a refusal leaves the nest and the symbol table untouched**, for every nest,
+    every option value and every well-formed tag dictionary. -/
+theorem C26_LoopTiling2D (o : Opts) (s : St) (hw : WF s.tab) :
+    (run (tilingProg o) s).2 = .refused → (run (tilingProg o) s).1 = s := by
+  intro hr
+  by_cases hv : tilingValidate o s = true
+  · rw [tiling_accepts o s hw hv] at hr
+    cases hr
+  · simp [tilingProg, validateThen, run, hv]
+
+/-- sample nests (symbols: 0 = j, 1 = i, 2 = n, 3 = a; no tags yet) -/
+def hdr (v : Nat) (start stop : List Nat) : Hdr :=
+  { var := v, start := start, stop := stop, step := .lit 1, chunked := false, tab := false }
+def tab0 : Tab := { bound := 4, tags := fun _ => none }
+def rect : Stmt := .loop (hdr 0 [] [2]) (.loop (hdr 1 [] [2]) (.leaf [3] false false .nil) .nil) .nil
+def triangular : Stmt := .loop (hdr 0 [] [2]) (.loop (hdr 1 [0] [2]) (.leaf [3] false false .nil) .nil) .nil
+
+theorem wf_tab0 : WF tab0 := ⟨fun _ _ h => by simp [tab0] at h, fun _ _ _ h => by simp [tab0] at h⟩
+
+/-- non-vacuity: the rectangular nest is accepted and becomes the 4-deep tiled nest … -/
+example : (run (tilingProg ⟨.int 4, false⟩) ⟨rect, tab0⟩).2 = .accepted := by decide
+example : (run (tilingProg ⟨.int 4, false⟩) ⟨rect, tab0⟩).1.nest =
+    .loop { var := 5, start := [], stop := [2], step := .lit 4, chunked := true, tab := false }
+      (.leaf [4] false false
+        (.loop { var := 7, start := [], stop := [2], step := .lit 4, chunked := true, tab := false }
+          (.loop { var := 0, start := [5], stop := [4], step := .lit 1, chunked := true, tab := false }
+            (.leaf [6] false false
+              (.loop { var := 1, start := [7], stop := [6], step := .lit 1, chunked := true, tab := false }
+                (.leaf [3] false false .nil) .nil)) .nil) .nil)) .nil := by decide
+/-- … the triangular nest, a bad tile size and an unsupported option are refused with the nest untouched. -/
+example : (run (tilingProg ⟨.int 4, false⟩) ⟨triangular, tab0⟩).2 = .refused
+    ∧ (run (tilingProg ⟨.int 4, false⟩) ⟨triangular, tab0⟩).1.nest = triangular := by decide
+example : (run (tilingProg ⟨.int 0, false⟩) ⟨rect, tab0⟩).2 = .refused := by decide
+example : (run (tilingProg ⟨.absent, true⟩) ⟨rect, tab0⟩).2 = .refused := by decide
+example : WF tab0 ∧ tilingValidate ⟨.int 4, false⟩ ⟨rect, tab0⟩ = true := ⟨wf_tab0, by decide⟩
+
+/-- The well-formedness hypothesis is needed: if one symbol carries both the tag `j_el_inner` and the tag
+    `i_out_var` the nested LoopSwapTrans refuses after both loops have been chunked. -/
+theorem C26_LoopTiling2D_needs_wf :
+    let bad : Tab := { bound := 5, tags := fun k => if k = elKey 0 ∨ k = outKey 1 then some 4 else none }
+    (run (tilingProg ⟨.int 4, false⟩) ⟨rect, bad⟩).2 = .refused ∧
+    (run (tilingProg ⟨.int 4, false⟩) ⟨rect, bad⟩).1.nest ≠ rect := by
+  decide
+
+end C26.Tiling
